@@ -28,6 +28,7 @@ from . import build
 from .rng import run_rng
 
 VERIF = build.VERIF
+OUT = os.environ.get("VERIF_OUT", VERIF)       # evidence/ and replays/ go here (self-tests against mutated trees use a scratch dir)
 JOBS = int(os.environ.get("VERIF_JOBS", "0")) or (os.cpu_count() or 4)
 
 
@@ -322,7 +323,7 @@ def shrink_case(mod, case, target, known_keys, builddir, tier, budget_s=120.0, v
 
 # ----------------------------------------------------------------------------------------------
 def write_replay(mod, seed, index, case, v, digest):
-    d = os.path.join(VERIF, "replays", mod.ID)
+    d = os.path.join(OUT, "replays", mod.ID)
     os.makedirs(d, exist_ok=True)
     path = os.path.join(d, "%s-seed%d-run%d.json" % (mod.ID, seed, index))
     json.dump({"property": mod.ID, "engine": mod.VARIANT, "tree_hash": build.tree_hash(), "verif_seed": seed,
@@ -464,8 +465,8 @@ def check(mod, tier):
     }
     if hasattr(mod, "evidence_extra"):
         ev["coverage"].update(mod.evidence_extra(pr.results))
-    os.makedirs(os.path.join(VERIF, "evidence"), exist_ok=True)
-    json.dump(ev, open(os.path.join(VERIF, "evidence", mod.ID + ".json"), "w"), indent=1, default=str)
+    os.makedirs(os.path.join(OUT, "evidence"), exist_ok=True)
+    json.dump(ev, open(os.path.join(OUT, "evidence", mod.ID + ".json"), "w"), indent=1, default=str)
     if pr.timeouts:
         print("harness verdict TIMEOUT for runs %s (wall cap %.0fs per run; not counted as violations)" % (sorted(pr.timeouts)[:12], getattr(mod, "RUN_CAP_S", 90.0)))
     zero = [k for k in getattr(mod, "PROBES", []) if not probes.get(k)]
